@@ -156,6 +156,11 @@ func NewPool(kt string, code uint, variant string) *Pool {
 	// duplicate create, same suffix data, delta null
 	p.add(&PoolOp{ID: "C~n", Type: operation.TypeCreate, Req: []byte(fmt.Sprintf(`{"type":"create","suffixData":%s}`, string(mustCanonSuffix(cs)))), Abs: habs, Kind: "dupcreate"})
 
+	// stored create that the applier refuses (no suffix data): skipped, a later create of the same DID still defines it
+	xabs := createAbs
+	xabs.ParseOK = false
+	p.add(&PoolOp{ID: "C~x", Type: operation.TypeCreate, Req: []byte(`{"type":"create","suffixData":null,"delta":null}`), Abs: xabs, Kind: "dupcreate"})
+
 	upd := func(id, reveal, next string, patches []interface{}, mod func(*OpSpec), abs func(*sidetree.Op), kind, of string) {
 		s := &OpSpec{Type: "update", Suffix: suffix, SignKey: k(reveal), NextUpdate: next, Patches: patches, Code: code}
 		a := sidetree.Op{ParseOK: true, Reveals: c(reveal), Authorized: true, NextUpdate: next, Delta: sidetree.DeltaOK, Patches: patches}
